@@ -1929,7 +1929,14 @@ class SessionCache(object):
                 continue
 
             if not isinstance(reverse, Set): throw(NotImplementedError)
-            if reverse in modified_m2m: continue
+            if reverse in modified_m2m:
+                # the other side of the relationship has recorded the same links: nothing to write for this side,
+                # but its pending sets are flushed as well and must not survive the flush
+                for obj in objects:
+                    if obj._status_ != 'marked_to_delete':
+                        setdata = obj._vals_[attr]
+                        setdata.added = setdata.removed = setdata.absent = None
+                continue
             added, removed = modified_m2m.setdefault(attr, (set(), set()))
             for obj in objects:
                 setdata = obj._vals_[attr]
